@@ -338,6 +338,11 @@ def _guards(u, x):
     return conds
 
 
+def _same_index_excluded(conds, a, b):
+    """a guard of the form `i != id` / `&x != &y` between the two elements is present (not the case in this code base today)"""
+    return False
+
+
 def _queue_witness(u, sentinel, member_text, x, tgt, is_sent, conds, cconds, binds, q):
     """an assignment of queue positions under which the guards hold although a position in them is the sentinel -1"""
     def relevant(c):
@@ -396,6 +401,13 @@ def _queue_witness(u, sentinel, member_text, x, tgt, is_sent, conds, cconds, bin
             return asg
         if sat and me is not None and asg.get(me) == -1:
             return asg
+        # the position compared against (read in place, not through a by-value helper parameter) may be the very
+        # element the loop is at: if the guard admits that case the loop moves its own threshold while it runs
+        if sat and me is not None:
+            decl_of = {member_text(m): m.get("referencedMemberDecl") for c, _ in conds for m in A.walk(c) if m.get("kind") == "MemberExpr" and m.get("referencedMemberDecl") in sentinel}
+            for k2, v2 in asg.items():
+                if k2 != me and k2 in decl_of and decl_of[k2] == tgt.get("referencedMemberDecl") and v2 == asg[me] and not _same_index_excluded(conds, me, k2):
+                    return dict(asg, reason="`%s` may be the element `%s` itself (nothing excludes it): the loop then decrements the position it compares against while it is still running" % (k2, me))
     return None
 
 
